@@ -229,6 +229,10 @@ fn type_for(t: &mut Tape, leaf: &J) -> (String, Option<Modifier>) {
 }
 
 /// signature of the open known finding F39 (kept exact: any other failure on a deep document is still a violation)
+const MARKER_KEY: &str = "$serde_json::private::Number";
+/// signature of the open known finding F63
+const MARKER_SIGNATURE: &str = "serde-number-marker: an object with the key $serde_json::private::Number is not read as an object";
+
 const DEEP_SIGNATURE: &str = "deep-json: a valid document nested 128 or more levels deep is read as not-JSON";
 
 /// maximal bracket nesting of the text outside string literals
@@ -321,6 +325,14 @@ impl Property for C02 {
                 }
                 let at = t.draw(items.len() + 1);
                 items.insert(at, ("deep".into(), deep));
+            }
+        }
+        // one case in forty: an object whose only key is the private marker serde_json's arbitrary_precision mode uses for numbers
+        if !_ctx.excluded("c02_serde_number_marker") && t.chance(1, 40) {
+            if let J::Obj(items) = &mut doc {
+                let inner = J::Obj(vec![(MARKER_KEY.to_string(), J::Str(t.pick(&["x", "12", "1.5"]).to_string()))]);
+                let at = t.draw(items.len() + 1);
+                items.insert(at, ("marker".into(), inner));
             }
         }
         let mut entries = Vec::new();
@@ -461,6 +473,9 @@ impl Property for C02 {
                 }
                 ModelRow::Row(cells) => {
                     if real.columns.is_empty() {
+                        if valid && line.contains(MARKER_KEY) {
+                            return Err(Failure::new(MARKER_SIGNATURE, format!("the line yields no row; expected {:?}\n  {}", cells, context)));
+                        }
                         if deep_tag {
                             return Err(Failure::new(DEEP_SIGNATURE, format!("nesting depth {}: the line yields no row; expected {:?}\n  {}", depth, cells, context)));
                         }
@@ -486,6 +501,9 @@ impl Property for C02 {
                                 Some(Modifier::NotNull) => "+notnull",
                                 _ => "",
                             };
+                            if valid && line.contains(MARKER_KEY) && kind == "json" {
+                                return Err(Failure::new(MARKER_SIGNATURE, format!("column {} ({}) extracted {:?}, expected {:?}\n  {}", colnames[ci], ty, got_v, cell, context)));
+                            }
                             if deep_tag && kind == "json" && (got_v.is_null() || matches!(m, Some(Modifier::Default(_)))) {
                                 return Err(Failure::new(DEEP_SIGNATURE, format!("nesting depth {}: column {} ({}) extracted {:?}, expected {:?}\n  {}", depth, colnames[ci], ty, got_v, cell, context)));
                             }
